@@ -6,6 +6,14 @@
 //   M<k>                  modify: append id k
 //   M<k>!<a><w>           ... the functor throws in its a-th application (a = 1 | 2), w = b before touching the
 //                         object | m in the middle (object left torn) | a after completing its work
+// path forcing (directed scripts only; no trace events):
+//   G<k>:<cond>           the k-th scheduling point of this thread from now on (inside the next library call) is blocked
+//                         until <cond> holds;  <cond> = f<n> flag n posted | rl0 / rl1 m_readingLeft is false / true |
+//                         g<t> thread t is parked at its gate
+//   W:<cond>              wait (client level) until <cond> holds
+//   P<n>                  post flag n
+//   M<k>^<n>              modify whose functor, in its first application, posts flag n and waits for flag n+1; the writer
+//                         then parks at the yield of its first wait loop until flag n+2
 // A thread holds at most one handle and never calls modify while holding one (it would wait for itself).
 // markers: call/ret ls <variant> ; call/ret rel ; call/ret/exc modify <k> ; uth ; final line "0 fin <left> <right>"
 #include "gmlc/libguarded/lr_guarded.hpp"
@@ -26,11 +34,42 @@ struct ModSpec {
     int k = 0;
     int app = 0;   // 0 = never throws
     char where = 0;
+    int flag = 0;  // > 0: first application posts flag, waits for flag + 1
 };
+
+std::vector<char>& flags()
+{
+    static std::vector<char> f(32, 0);
+    return f;
+}
+
+verif::Enabled cond_of(LR& g, const std::string& c)
+{
+    if (c[0] == 'f') {
+        size_t n = size_t(atoi(c.c_str() + 1)) % 32;
+        return [n] { return flags()[n] != 0 ? int(verif::EN) : int(verif::DIS); };
+    }
+    if (c == "rl0" || c == "rl1") {
+        bool want = c == "rl1";
+        LR* pg = &g;
+        return [pg, want] { return pg->m_readingLeft.raw() == want ? int(verif::EN) : int(verif::DIS); };
+    }
+    if (c[0] == 'g') {
+        int t = atoi(c.c_str() + 1);
+        return [t] { return verif::at_gate(t) ? int(verif::EN) : int(verif::DIS); };
+    }
+    return [] { return int(verif::EN); };
+}
 
 ModSpec parse_mod(const std::string& op)
 {
     ModSpec m;
+    auto hat = op.find('^');
+    if (hat != std::string::npos) {
+        m.k = atoi(op.substr(1, hat - 1).c_str());
+        m.flag = atoi(op.c_str() + hat + 1);
+        return m;
+    }
     auto bang = op.find('!');
     m.k = atoi(op.substr(1, bang == std::string::npos ? std::string::npos : bang - 1).c_str());
     if (bang != std::string::npos && bang + 2 < op.size() + 0) {
@@ -48,6 +87,15 @@ void do_modify(LR& g, const ModSpec& m)
     try {
         g.modify([&](OpLog& x) {
             ++count;
+            if (m.flag > 0 && count == 1) {
+                flags()[size_t(m.flag) % 32] = 1;
+                size_t w = size_t(m.flag + 1) % 32;
+                verif::sched([w] { return flags()[w] != 0 ? int(verif::EN) : int(verif::DIS); });
+                // park this writer at its 7th scheduling point from here — 3 inside append, `ast rl`, `ald cl`, the first
+                // spin load, and then the yield of the first wait loop (if the load saw a reader) — until flag n+2
+                size_t w2 = size_t(m.flag + 2) % 32;
+                verif::gate_at(7, [w2] { return flags()[w2] != 0 ? int(verif::EN) : int(verif::DIS); });
+            }
             bool thrower = (m.app == count);
             if (thrower && m.where == 'b') {
                 verif::emit("uth");
@@ -76,6 +124,7 @@ void do_modify(LR& g, const ModSpec& m)
 static verif::Result exec(const Script& sc, const verif::Config& cfg)
 {
     verif::begin(cfg);
+    std::fill(flags().begin(), flags().end(), 0);
     verif::emit("cfg lr " + sc.config);
     {
         LR g;
@@ -129,6 +178,13 @@ static verif::Result exec(const Script& sc, const verif::Config& cfg)
                             release();
                         }
                         do_modify(g, parse_mod(op));
+                    } else if (op[0] == 'G') {
+                        auto colon = op.find(':');
+                        verif::gate_at(atoi(op.c_str() + 1), cond_of(g, op.substr(colon + 1)));
+                    } else if (op[0] == 'W') {
+                        verif::sched(cond_of(g, op.substr(2)));
+                    } else if (op[0] == 'P') {
+                        flags()[size_t(atoi(op.c_str() + 1)) % 32] = 1;
                     }
                 }
                 if (have) {
@@ -208,6 +264,13 @@ int main(int argc, char** argv)
         parse("-;M1!2m,M2;M3!1m,M4;S,r,r,r,R,S,r,r,R"),
         // real-time order: a reader that starts after a modify returned
         parse("-;M1,S,r,R,M2,S,r,R;S,r,R,S,r,R"),
+        // forced interleavings (gates): a stale reader — counting flag loaded before a writer flipped it — registers in the
+        // counter the NEXT modify's first wait loop looks at (either counter);
+        parse("-;G2:f1,S,P2,r,W:g2,R,P3;W:g1,M1,M2^1"),
+        parse("-;M1,G2:f1,S,P2,r,W:g2,R,P3;W:g1,M2,M3^1"),
+        // a reader that arrives between the flip of m_readingLeft and the flip of m_countingLeft (both sides)
+        parse("-;G3:rl0,S,r,R;W:g1,M1"),
+        parse("-;M1,G3:rl1,S,r,R;W:g1,M2"),
         // several writers only
         parse("-;M1,M2;M3,M4;M5!1a,M6!2b"),
     };
